@@ -1085,6 +1085,26 @@ class ProgGen:
 		self.fixed_calls[name] = [[[3, -1, 4], {'a': 5, 'b': 0}, 'xaab', 1], [[0, 2, 7, 1], {'b': -3, 'zz': 1}, 'abcab', 2], [[1], {'a': -1}, 'ab', 0]] + \
 			[[self.pick(xss), self.pick(ds), self.pick(['a', 'b', '', 'ab', 'xaab']), self.pick([-1, 0, 1, 2, 3, 6])] for _ in range(3)]
 
+	def gen_wide_func(self) -> None:
+		"""A function with 11-13 parameters, two or more of them of generic type at positions that are far apart (#1 and #10+): the flattened
+		attribute paths of its symbol (0, 1, 1.0, ..., 10, 10.0, 11, ...) are ordered and grouped by the symbol serializer."""
+		r = self.rnd
+		name = f'f{len(self.funcs)}'
+		n = r.randint(11, 13)
+		generic = [('list', T_INT), ('list', T_STR), ('dict', T_STR, T_INT), ('tuple', T_INT, T_STR), ('dict', T_INT, ('list', T_INT))]
+		types = [self.pick([T_INT, T_STR, T_BOOL, T_FLOAT]) for _ in range(n)]
+		types[self.pick([0, 1, 2])] = self.pick(generic)
+		types[self.pick([9, 10, n - 1])] = self.pick(generic)
+		if self.chance(0.5):
+			types[r.randint(3, 8)] = self.pick(generic)
+		params = [(self.fresh('a'), t, None) for t in types]
+		ints = [p for p, t, _ in params if t == T_INT]
+		seqs = [p for p, t, _ in params if t[0] in ('list', 'dict', 'str')]
+		body = ' + '.join(ints[:3] + [f'int(len({p}))' for p in seqs[:3]]) or '0'
+		sig = ', '.join(f'{p}: {py_ty(t)}' for p, t, _ in params)
+		self.lines += [f'def {name}({sig}) -> int:', f'\treturn {body}', '']
+		self.funcs.append((name, params, T_INT, {'wide-signature'}))
+
 	def gen_optional_func(self) -> None:
 		"""Optional values in both member orders (None | T and T | None), looked through by subscript, iteration, len and attribute access
 		after an `is not None` test (outside C01's domain: the C++ side has no None)."""
@@ -1345,6 +1365,8 @@ class ProgGen:
 			self.gen_container_func()
 		if self.chance(0.25) and self.on('optional'):
 			self.gen_optional_func()
+		if self.chance(0.25) and self.on('wide-signature'):
+			self.gen_wide_func()
 		header = ['from enum import Enum'] if self.enums else []
 		if self.generics:
 			header.append('from typing import Generic, TypeVar')
